@@ -20,6 +20,12 @@ SpecRL3 == BoundedR(3)
 SpecRL4 == BoundedR(4)
 SpecRL5 == BoundedR(5)
 ViewHist == <<root, contents, hist>>
+BoundedF(n) == Init /\ [][TLCGet("level") < n /\ (Next \/ NextFSet)]_vars
+KTinyB == {Bits(<<1>>), Bits(<<0, 1>>), Bits(<<0, 128>>)}
+LTinyB == KTinyB \cup {Bits(<<0>>), Bits(<<0, 1, 0>>)}
+SpecFL4 == BoundedF(4)
+SpecFL5 == BoundedF(5)
+SpecFL6 == BoundedF(6)
 SpecL4 == Bounded(4)
 SpecL5 == Bounded(5)
 SpecL6 == Bounded(6)
